@@ -337,6 +337,26 @@ Proof.
   apply PresI_for_each_set. intros i _. apply PresI_prune_if8.
 Qed.
 
+Lemma PresI_prune_node9 nn : PresI (prune_node9 nn).
+Proof.
+  unfold prune_node9, exists_as. apply PresI_guarded.
+  apply PresI_bind'; [apply PresI_get | intros t].
+  destruct (N.eqb t T_Facility); [apply PresI_api_remove_facility | apply PresI_api_remove_node].
+Qed.
+
+Lemma PresI_api_prune9 : PresI api_prune9.
+Proof.
+  unfold api_prune9.
+  apply PresI_bind'; [apply PresI_get | intros ns_].
+  apply PresI_bind'; [apply PresI_get | intros cs].
+  apply PresI_bind'; [apply PresI_get | intros ss].
+  apply PresI_bind'; [apply PresI_get | intros is_].
+  apply PresI_bind'; [apply PresI_for_each_set; intros nn _; apply PresI_prune_node9 | intros _].
+  apply PresI_bind'; [apply PresI_for_each_set; intros cn _; unfold prune_comp7, exists_as; apply PresI_guarded; apply PresI_api_remove_component | intros _].
+  apply PresI_bind'; [apply PresI_for_each_set; intros s _; unfold prune_ns7, exists_as; apply PresI_guarded; apply PresI_remove_ns_disconnecting | intros _].
+  apply PresI_for_each_set. intros i _. apply PresI_prune_if8.
+Qed.
+
 Lemma PresI_api_prune7 : PresI api_prune7.
 Proof.
   unfold api_prune7.
@@ -385,4 +405,5 @@ Proof.
   - exact (proj2 (T _ (PresI_api_prune g I Hd Hc) _ _ _ J0 E)).
   - exact (proj2 (T _ (PresI_api_prune7 g I Hd Hc) _ _ _ J0 E)).
   - exact (proj2 (T _ (PresI_api_prune8 g I Hd Hc) _ _ _ J0 E)).
+  - exact (proj2 (T _ (PresI_api_prune9 g I Hd Hc) _ _ _ J0 E)).
 Qed.
